@@ -37,7 +37,7 @@ ANCHORS = ['pfhedge.nn.modules.hedger:Hedger.compute_hedge',
            'pfhedge.features.container:FeatureList.get',
            'pfhedge.features.features:Barrier.get']
 DECIDING = ["model_input.declared_order", "feature.step_equals_column", "branches.agree", "prev_hedge.is_last_output", "prev_hedge.zero_at_step0"]
-REQUIRED_BRANCHES = ["prev_hedge.first", "prev_hedge.middle", "option_with_two_underliers", "underlier_on_another_grid", "H>1", "second_call_same_shape", "second_call_other_paths", "barrier.down.nonmonotone", "sibling_hedger_shares_features"]
+REQUIRED_BRANCHES = ["prev_hedge.first", "prev_hedge.middle", "option_with_two_underliers", "underlier_on_another_grid", "H>1", "second_call_same_shape", "second_call_other_paths", "barrier.down.nonmonotone", "sibling_hedger_shares_features", "model.overwrites_its_single_input"]
 
 
 class TwoUnderlierOption(BaseDerivative, OptionMixin):
@@ -121,14 +121,16 @@ class IgnoreLast(torch.nn.Module):
 
 
 def drv_branches(ctx, k, rng):
-    model_kind = pick(rng, ["linear", "mlp", "bs", "naked", "linear", "mlp"])
+    model_kind = pick(rng, ["linear", "mlp", "bs", "naked", "linear", "mlp", "inplace_single"])
     hk = pick(rng, ["ul", "ul", "ul+eu", "eu+eu", "none"])
     if model_kind == "bs":
         hk = "ul"
     derivative, hedge, hedger, n_paths, desc = P.scenario(rng, model_kind=model_kind, hedge_kind=hk, n_paths=int(pick(rng, [1, 2, 7, 33])),
                                                          deriv_kind=(pick(rng, P.OPTIONS) if model_kind == "bs" else None))
-    if "empty" in desc["inputs"]:
+    if "empty" in desc["inputs"] or "prev_hedge" in desc["inputs"]:
         return
+    if model_kind == "inplace_single":
+        ctx.branch("model.overwrites_its_single_input")
     derivative.simulate(n_paths=n_paths)
     n_h = 1 if hedge is None else len(hedge)
     if n_h > 1:
